@@ -235,3 +235,21 @@ def register(claim):
         'hinge stacks (arccos * sign); prismatic / stacked velocity round trip (documented upstream limitation).',
         'composed algebraic value numbering (round-trip law) by random interpretation + opaque-callee provenance',
         'DESIGN.md §3 C08')
+
+  claim('C02', 'other',
+        'Static equivalence with independent first-principles references: the generalized pipeline\'s '
+        'joint-space inertia matrix (composite rigid body), bias force (recursive Newton-Euler), '
+        'passive and smooth force and one contact-free step are obtained by abstract interpretation '
+        'of the AST (kinematics.forward, State.init, transform_com, mass.matrix, dynamics.*, '
+        'integrator.integrate, pipeline.step, real scan.py) on symbolic models with rotated bodies, '
+        'offset anchors and centres of mass, armature, hinge / slide / free joints in chains, '
+        'branches and forests, and compared with (1) the polarised kinetic energy, (2) Newton-Euler '
+        'projected on the joint-space Jacobians (Coriolis + centrifugal + gravity), (3) the spring-'
+        'damper law, (4) semi-implicit Euler with implicit joint damping incl. quaternion integration; '
+        'equality of the rational functions of all parameters, q, qd, tau is decided by random '
+        'interpretation in GF(2^61-1).',
+        'Trusted: python ast, AVN interpreter, reference dynamics braxlint/refkin.py, exact linear solve. '
+        'Single-joint and free links instantiated; the MuJoCo binary is not run; positive definiteness '
+        'follows from the kinetic-energy form.',
+        'algebraic value numbering vs first-principles reference dynamics, decided by random interpretation',
+        'DESIGN.md §3 C02')
